@@ -344,7 +344,7 @@ func init() {
 		ID:   "C19",
 		Desc: "directory listing: every entry exactly once over localfs/staticfs/composefs, QIDs agree with Walk/GetAttr",
 		Run:  runC19,
-		Quick: 12000, Thorough: 150000, QuickSecs: 60, ThorSecs: 1200,
+		Quick: 12000, Thorough: 300000, QuickSecs: 60, ThorSecs: 1200,
 		Rule:  "backends in rotation: localfs on a temporary directory (files, subdirectories, symlinks), staticfs, composefs flat (files + a static mount + a localfs mount) and nested (the same below a WithDir mount), each through real client + real server, plus localfs directly on the File; directory sizes {0,1,2,3,10,100,1000} (5000 occasionally in thorough), name lengths 1..255, count in {one entry, +1, two entries, three+7, 512, 4000, msize-24, msize, 2*msize, 1 MiB}, msize {4096, 8192, 65536}, versions 0..7. Oracle: the paging loop 'offset := Offset of the last entry' terminates within n+8 calls and the multiset of names equals the ground truth (each exactly once); each (sampled, for large listings) entry's QID and type equal what Walk(name) and GetAttr on the result report. A sequence/state property, not a schedule property; the simulator supplies the real stack and determinism.",
 		Assume: []string{"the temporary directory is not modified while it is listed"},
 		Real:   []string{"fsimpl/localfs (real syscalls on a temp dir)", "fsimpl/staticfs", "fsimpl/composefs", "fsimpl/readdir", "fsimpl/qids", "p9.Server treaddir/rreaddir encode", "p9.Client"},
